@@ -288,6 +288,33 @@ class WeightDomain:
             return Adt(G, None, [a[0].fields[0], a[0].fields[1], W(form(), "one")])
         return NotImplemented
 
+    fork_on_inline = True
+
+    def merge_callee(self, ex, fr, cfr):
+        """the caller continues on one path of an inlined callee: take over that path's assumptions and re-apply the facts
+        they imply (a value found zero, a z found one) to the caller's own values"""
+        pc = list(fr.env.get("__pc", ()))
+        for c in cfr.env.get("__pc", ()):
+            if c[0] == "is_zero":
+                if any(d[0] == "is_zero" and d[1] == c[1] and d[4] != c[4] for d in pc):
+                    fr.env["__dead"] = True
+                if c[4]:
+                    for env in self._envs(fr):
+                        for l, v in list(env.items()):
+                            if l != "__pc":
+                                env[l] = self.zero_vid(v, c[1])
+            elif c[0] == "z==1":
+                if any(d[0] == "z==1" and d[1] == c[1] and d[2] != c[2] for d in pc):
+                    fr.env["__dead"] = True
+                if c[2]:
+                    syms = set(c[1])
+                    for env in self._envs(fr):
+                        for l, v in list(env.items()):
+                            if l != "__pc":
+                                env[l] = self.subst0(v, syms)
+            pc.append(c)
+        fr.env["__pc"] = tuple(pc)
+
     def recursive_call(self, ex, fk, args, term, fr):
         """the adder calling itself with swapped operands: its summary"""
         a = [deref_value(ex, x) for x in args]
@@ -332,6 +359,8 @@ class WeightDomain:
         _, what, f, negated = cond
         pc = list(fr.env.get("__pc", ()))
         if what == "eq1":
+            if any(c[0] == "z==1" and c[1] == dict(f) and c[2] != (truth != negated) for c in pc):
+                fr.env["__dead"] = True
             pc.append(("z==1", dict(f), truth != negated))
             if truth != negated:
                 syms = {k for k, _ in f}
@@ -368,6 +397,8 @@ class WeightDomain:
                     fr.env[l] = Adt(v.name, name, v.fields)
         elif what == "iszero":
             w = f
+            if any(c[0] == "is_zero" and c[1] == w.vid and c[4] != (truth != negated) for c in pc):
+                fr.env["__dead"] = True
             pc.append(("is_zero", w.vid, dict(w.f), w.cls, truth != negated))
             if truth != negated:
                 for env in self._envs(fr):
@@ -588,12 +619,13 @@ def rule_weight_lines(prop, repo):
         oth = [x for x in vs if not isinstance(x, W)]
         return (not oth) and len({w.f for w in ws}) <= 1, ws
 
-    for role, args in (("tangent_eval", [("byref", gpoint("s")), ("byref", gpoint(None))]),
-                       ("chord_eval", [("byref", gpoint("s1")), ("byref", gpoint("s2")), ("byref", gpoint(None))])):
+    for role, args in (("tangent_eval", [gpoint("s"), gpoint(None)]),
+                       ("chord_eval", [gpoint("s1"), gpoint("s2"), gpoint(None)])):
         b = one(role)
         if not b:
             continue
         name = b.name
+        args = by_sig(b, args)
         R.instance()
         dom, rs = run_fn(F, b, args)
         ok = len(rs) == 1
@@ -607,11 +639,12 @@ def rule_weight_lines(prop, repo):
         errs = sorted(set(dom.errors))
         R.check(ok and not errs, "%s:weight:%s" % (prop, name), "%s: numerator / denominator slots have weights %s; inhomogeneous operations %s" % (name, desc, errs[:3]), b.file_line(), b.rec["path"],
                 sample={"fn": name, "slot_weight": desc, "field_ops": dom.ops})
-    for role, args in (("tangent_step", [("byref", gpoint("s"))]), ("chord_step", [("byref", gpoint("s")), ("byref", gpoint(None))])):
+    for role, args in (("tangent_step", [gpoint("s")]), ("chord_step", [gpoint("s"), gpoint(None)])):
         b = one(role)
         if not b:
             continue
         name = b.name
+        args = by_sig(b, args)
         R.instance()
         dom, rs = run_fn(F, b, args)
         ok = len(rs) == 1
@@ -627,7 +660,7 @@ def rule_weight_lines(prop, repo):
     for b in list(roles.twist_frob) + list(roles.twist_frob_by):
         name = b.name
         R.instance()
-        args = [("byref", gpoint("s"))] + ([("byref", W(form(), "const"))] if b in roles.twist_frob_by else [])
+        args = by_sig(b, [gpoint("s")] + ([W(form(), "const")] if b in roles.twist_frob_by else []))
         dom, rs = run_fn(F, b, args)
         ks = []
         for v, _ in rs:
